@@ -26,9 +26,13 @@ def apply_bounds(genomes: np.ndarray, bounds: np.ndarray, method: str) -> np.nda
         is_odd_flip = np.mod(flips, 2) == 1
         reflected_genomes = np.where(is_odd_flip, range_size - mod_genomes, mod_genomes)
         # Return genomes to their original positions with bounds applied
-        return lower_bounds + reflected_genomes
+        repaired = np.clip(lower_bounds + reflected_genomes, lower_bounds, upper_bounds)
+        # Only coordinates that violate the bounds are repaired.
+        return np.where((genomes >= lower_bounds) & (genomes <= upper_bounds), genomes, repaired)
     elif method == "toroidal":
         range_size = upper_bounds - lower_bounds
-        return lower_bounds + (genomes - lower_bounds) % range_size
+        repaired = np.clip(lower_bounds + (genomes - lower_bounds) % range_size, lower_bounds, upper_bounds)
+        # Only coordinates that violate the bounds are repaired.
+        return np.where((genomes >= lower_bounds) & (genomes <= upper_bounds), genomes, repaired)
     else:
         raise ValueError(f"Unknown method: {method}")
